@@ -19,27 +19,6 @@ If mustReturnInt is False and you don't want to allow the versions to be sorted,
         prim1, sec1, ter1 = self._splitVersion(v1)
         prim2, sec2, ter2 = self._splitVersion(v2)
 
-        if prim1 == prim2:
-            # the same primary release component
-            if sec1 or sec2 or ter1 or ter2:
-                if sec1 or sec2:
-                    if (sec1 and sec2):
-                        ret = self.stdCompare(sec1, sec2, True)
-                    else:
-                        if sec1:
-                            return -1
-                        else:
-                            return 1
-
-                    if ret == 0:
-                        return self.stdCompare(ter1, ter2, True)
-                    else:
-                        return ret
-
-                return self.stdCompare(ter1, ter2, True)
-            else:
-                return 0
-
         c1 = re.split(r"[._]", prim1)
         c2 = re.split(r"[._]", prim2)
         #
@@ -112,7 +91,29 @@ If mustReturnInt is False and you don't want to allow the versions to be sorted,
                     raise ValueError("Versions %s and %s cannot be sorted" % (v1, v2))
 
         # So far, the two versions are identical.  The longer version should sort later
-        return cmp(n1, n2)
+        if n1 != n2:
+            return cmp(n1, n2)
+        #
+        # The primary release components compare equal; look at the secondary and tertiary ones
+        #
+        if sec1 or sec2 or ter1 or ter2:
+            if sec1 or sec2:
+                if (sec1 and sec2):
+                    ret = self.stdCompare(sec1, sec2, True)
+                else:
+                    if sec1:
+                        return -1
+                    else:
+                        return 1
+
+                if ret == 0:
+                    return self.stdCompare(ter1, ter2, True)
+                else:
+                    return ret
+
+            return self.stdCompare(ter1, ter2, True)
+
+        return 0
 
     def _splitVersion(self, version):
         """
